@@ -74,22 +74,25 @@ Record controller := {
   c_delay : option N;                (* timed_recovery_delay_in_minutes : Option<u32> *)
   c_roles : ruleset;
   c_badge : bool;
-  c_minted : list N;
+  c_minted : list N;                 (* recovery-badge ids ever minted (ids are never reusable) *)
+  c_burned : list N;                 (* recovery-badge ids burned by their holders *)
   c_fee : option Z
 }.
 Definition create (rs : ruleset) (delay : option N) : controller :=
-  {| c_st := st_default; c_delay := delay; c_roles := rs; c_badge := true; c_minted := []; c_fee := None |}.
+  {| c_st := st_default; c_delay := delay; c_roles := rs; c_badge := true; c_minted := []; c_burned := []; c_fee := None |}.
 
 Definition set_st (c : controller) (s : acstate) : controller :=
-  {| c_st := s; c_delay := c_delay c; c_roles := c_roles c; c_badge := c_badge c; c_minted := c_minted c; c_fee := c_fee c |}.
+  {| c_st := s; c_delay := c_delay c; c_roles := c_roles c; c_badge := c_badge c; c_minted := c_minted c; c_burned := c_burned c; c_fee := c_fee c |}.
 Definition set_roles (c : controller) (rs : ruleset) : controller :=
-  {| c_st := c_st c; c_delay := c_delay c; c_roles := rs; c_badge := c_badge c; c_minted := c_minted c; c_fee := c_fee c |}.
+  {| c_st := c_st c; c_delay := c_delay c; c_roles := rs; c_badge := c_badge c; c_minted := c_minted c; c_burned := c_burned c; c_fee := c_fee c |}.
 Definition set_badge (c : controller) (b : bool) : controller :=
-  {| c_st := c_st c; c_delay := c_delay c; c_roles := c_roles c; c_badge := b; c_minted := c_minted c; c_fee := c_fee c |}.
+  {| c_st := c_st c; c_delay := c_delay c; c_roles := c_roles c; c_badge := b; c_minted := c_minted c; c_burned := c_burned c; c_fee := c_fee c |}.
 Definition set_minted (c : controller) (l : list N) : controller :=
-  {| c_st := c_st c; c_delay := c_delay c; c_roles := c_roles c; c_badge := c_badge c; c_minted := l; c_fee := c_fee c |}.
+  {| c_st := c_st c; c_delay := c_delay c; c_roles := c_roles c; c_badge := c_badge c; c_minted := l; c_burned := c_burned c; c_fee := c_fee c |}.
+Definition set_burned (c : controller) (l : list N) : controller :=
+  {| c_st := c_st c; c_delay := c_delay c; c_roles := c_roles c; c_badge := c_badge c; c_minted := c_minted c; c_burned := l; c_fee := c_fee c |}.
 Definition set_fee (c : controller) (f : option Z) : controller :=
-  {| c_st := c_st c; c_delay := c_delay c; c_roles := c_roles c; c_badge := c_badge c; c_minted := c_minted c; c_fee := f |}.
+  {| c_st := c_st c; c_delay := c_delay c; c_roles := c_roles c; c_badge := c_badge c; c_minted := c_minted c; c_burned := c_burned c; c_fee := f |}.
 
 (* ---------- methods ---------- *)
 Inductive meth :=
@@ -109,7 +112,10 @@ Inductive meth :=
   | MWithdrawFee (amt : Z)                      (* v2 *)
   | MContributeFee (amt : Z)                    (* v2 *)
   (* not a blueprint method: a direct `set` on the attached role-assignment module for a Main-module role *)
-  | MSetRoleDirect (r : role) (new : rule).
+  | MSetRoleDirect (r : role) (new : rule)
+  (* not a blueprint method either: the holder of a recovery badge burns it (burner = allow_all on
+     the recovery badge resource created by `create`) *)
+  | MBurnBadge (id : N).
 
 Definition meth_name (m : meth) : string :=
   match m with
@@ -135,6 +141,7 @@ Definition meth_name (m : meth) : string :=
   | MWithdrawFee _ => "withdraw_recovery_fee"
   | MContributeFee _ => "contribute_recovery_fee"
   | MSetRoleDirect _ _ => "<role_assignment.set>"
+  | MBurnBadge _ => "<recovery_badge.burn>"
   end%string.
 
 (* ---------- admission: the generated table ---------- *)
@@ -315,6 +322,7 @@ Definition body (t : table) (c : controller) (now : Z) (m : meth) : controller *
         (set_fee c (Some (match c_fee c with Some b => b + amt | None => amt end)), Ok)
       else (c, Fail EOther)
   | MSetRoleDirect _ _ => (c, Fail EOther)   (* never reached through `step` *)
+  | MBurnBadge _ => (c, Fail EOther)         (* never reached through `step` *)
   end.
 
 Definition set_role (rs : ruleset) (r : role) (x : rule) : ruleset :=
@@ -331,6 +339,10 @@ Definition step (t : table) (c : controller) (who : caller) (now : Z) (m : meth)
   | MSetRoleDirect r x =>
       if direct_update_admitted t r (c_roles c) who then (set_roles c (set_role (c_roles c) r x), Ok)
       else (c, Fail EUnauthorized)
+  | MBurnBadge id =>
+      (* only a live badge can be in the holder's bucket; the burned id stays unmintable (tombstone) *)
+      if existsb (N.eqb id) (c_minted c) && negb (existsb (N.eqb id) (c_burned c))
+      then (set_burned c (id :: c_burned c), Ok) else (c, Fail EOther)
   | _ =>
       match lookup (meth_name m) (t_methods t) with
       | None => (c, Fail ENoSuchMethod)
